@@ -71,7 +71,26 @@ class KeyringMonitor:
 
 def judge_children(w, tap, reach):
     idx = {n: newsa_index(node) for n, node in w.nodes.items()}
+    reused = set()
+    if w.scenario.get('byz', {}).get('kind') == 'reuse_spi_request':
+        # an SPI named by more than one negotiation (or asked of a kernel more than once) identifies no NEWSA request: those CHILD_SAs are
+        # left to the clause on listed pairs below
+        seen = {}
+        for ch in tap.children:
+            for x in (ch['spi_init'], ch['spi_resp']):
+                seen[x] = seen.get(x, 0) + 1
+        for node in w.nodes.values():
+            cnt = {}
+            for r_ in node.kernel.requests:
+                d = r_.get('decoded')
+                if r_['type'] == K['XFRM_MSG_NEWSA'] and d and d.get('kind') == 'newsa':
+                    cnt[d['sa']['id']['spi']] = cnt.get(d['sa']['id']['spi'], 0) + 1
+            reused |= {x for x, n in cnt.items() if n > 1}
+        reused |= {x for x, n in seen.items() if n > 1}
     for ch in tap.children:
+        if ch['spi_init'] in reused or ch['spi_resp'] in reused:
+            reach['children_with_reused_spi_skipped'] = reach.get('children_with_reused_spi_skipped', 0) + 1
+            continue
         q = quad(w, ch, idx)
         if q is not None and q[0] is not None and q[1] is not None and q[3] is not None and q[2] is None and not ch.get('rewritten'):
             # the exchange initiator installed its outbound half (towards the SPI the response named) and the responder both of its halves,
@@ -164,11 +183,13 @@ def generate(seed, tier):
     if r.random() < 0.2:
         sc['controller_attrs'] = {'B': {'cookie_threshold': 0}, 'A': {'cookie_threshold': 0}}
         sc['meta']['cookie_pressure'] = True
-    if not lossy and 'sibling_window' not in sc and r.random() < 0.12:
+    if not lossy and 'sibling_window' not in sc and r.random() < 0.2:
         # a peer that offers several proposals (each with its own SPI where no conforming responder can take it): the SAs installed are those
-        # of the proposal that was chosen
-        sc['byz'] = {'kind': 'multi_proposal_request', 'seed': r.randrange(2 ** 31)}
-        sc['meta']['byz'] = 'multi_proposal_request'
+        # of the proposal that was chosen; or a peer that proposes an SPI it already uses with us (the kernel refuses the duplicate): the SAs of
+        # the CHILD_SA that owns the SPI stay mirror images
+        kind = r.choice(['multi_proposal_request', 'reuse_spi_request'])
+        sc['byz'] = {'kind': kind, 'seed': r.randrange(2 ** 31)}
+        sc['meta']['byz'] = kind
     return sc
 
 
@@ -280,6 +301,29 @@ def run(scenario):
                 w.violation('C04', p['kind'], p['sig'], p['detail'])
         if judge_children(w, tap, reach) is not None:
             return
+        # a CHILD_SA both daemons still list: none of its four kernel SAs has been deleted by the daemon that installed it (the peer's kernel
+        # would hold the other half of a pair that is no more)
+        if all(n.state == 'running' and not n.exited for n in w.nodes.values()) and len(w.nodes) == 2:
+            listed = {}
+            for name, node in w.nodes.items():
+                for sa in node.ike_sas():
+                    for c in sa.child_sas:
+                        proto = 50 if c.proposal.protocol_id.name == 'ESP' else 51
+                        listed.setdefault(frozenset((bytes(c.inbound_spi), bytes(c.outbound_spi))), {})[name] = (sa, c, proto)
+            for pair, ends in listed.items():
+                if len(ends) != 2:
+                    continue
+                for name, (sa, c, proto) in ends.items():
+                    led = w.nodes[name].kernel.ledger
+                    for direction, key in (('outbound', (_addr_raw(str(sa.peer_addr)), proto, bytes(c.outbound_spi))),
+                                           ('inbound', (_addr_raw(str(sa.my_addr)), proto, bytes(c.inbound_spi)))):
+                        last = next((e for e in reversed(led) if e[0] in ('add', 'del') and e[1] == key), None)
+                        reach['listed_pairs_checked'] = reach.get('listed_pairs_checked', 0) + 1
+                        if last is not None and last[0] == 'del':
+                            return w.violation(PROP, 'kernel_sas_not_mirror_images', {'kind': 'listed', 'direction': direction, 'field': 'deleted_by_daemon'},
+                                               f'both daemons list CHILD_SA {c.inbound_spi.hex()}/{c.outbound_spi.hex()} (as seen by {name}), but {name} '
+                                               f'deleted its {direction} SA (SPI {key[2].hex()}) from its kernel at t={last[2]:.2f} (netlink request '
+                                               f'{last[3]}): the peer holds the other half of a pair that is no more')
         # data plane: every flow of the workload that finds an outbound SA must be accepted by the peer kernel, both directions
         for (t, node, flow, res) in ctx.get('packets', []):
             peer = 'B' if node == 'A' else 'A'
